@@ -73,7 +73,7 @@ func defaultConfig() Config {
 	return Config{
 		MaxDepth: 200, MaxSteps: 5_000_000, MaxPaths: 0, MaxSymAlloc: 64, MaxConcreteAlloc: 1 << 22,
 		MaxSymStore: 64, MaxFanout: 256, Merge: true, TimeoutMs: 30000, FirstTimeoutMs: 1500, Workers: runtime.NumCPU(),
-		Unwind: 96, TimeBudgetS: 0,
+		Unwind: 96, TimeBudgetS: 0, MaxGoroutines: 40,
 	}
 }
 
